@@ -13,7 +13,7 @@ type C16Case struct {
 	Text string `json:"text"`
 }
 
-var wsPool = []string{"", " ", "  ", "\t", "\n", " \r\n "}
+var wsPool = []string{"", " ", "  ", "\t", "\n", "\r", " \r\n ", "\r\t", "\n\n"}
 var iriPool = []string{"ex.a", "ex.b", "a-b.c_d", "x1.y/z", "ex.a.b", "ex.a\\/b", "A.B", "0.0", "_.-"}
 
 func (g *G) ws(must bool) string {
@@ -77,7 +77,9 @@ func (g *G) sentence(depth int, level int) (text string, endsIri bool) {
 	}
 }
 
-var pathAlphabet = []rune("ab.xe/|()^*@ \n\t-_\\,\"0Z#é")
+// the grammar's own characters (all four whitespace characters included) plus near misses: other control and
+// space characters, punctuation, non-ASCII
+var pathAlphabet = []rune("ab.xe/|()^*@ \n\t\r\f\v\u00a0\u2028-_\\,\"'0Z#é:;[]{}+?!%&=<>~`$")
 
 func mutations(s string, g *G, max int) []string {
 	rs := []rune(s)
